@@ -6,6 +6,7 @@ def short(c):
     op = c.get("op")
     if op == "mint": return "m%d<-%d@%d" % (c["id"], c["p"], c["pos"])
     if op == "makevote": return "k%d:v%d %d>%d%s" % (c["id"], c["v"], c["s"], c["t"], "" if c["ok"] else "!")
+    if op == "makequorum": return "q%d:%s %d>%d" % (c["id"], c.get("vs"), c["s"], c["t"])
     if op == "carry": return "c%d+k%d" % (c["b"], c["vote"])
     if op == "deliver": return "D%d%s" % (c["b"], "o" if c.get("orphan") else ("e" if c.get("err") else ""))
     if op == "vote": return "V%d(%s)" % (c["i"], c.get("r"))
